@@ -87,7 +87,7 @@ func (m *Machine) everr(format string, a ...interface{}) {
 var ghostSorts = map[string]Sort{
 	"@in": SBytes, "@pos": SBV64, "@out": SStrm, "@W": SBool, "@E": SBool, "@buf": SStrm, "@rd": SStrm,
 	"@nwrites": SBV64, "@dyncalls": SBV64, "@rset": SBV64,
-	"@refs": SBV64, "@declared": SBV64, "@tr": SStrm, "@opens": SBV64, "@clashes": SBV64, "@lastwriter": SBV64, "@startcls": SBV64, "@nvals": SBV64, "@selfregs": SBV64, "@calls": SBV64, "@lastreader": SBV64, "@dstartcls": SBV64, "@dstartrefs": SBV64, "@dstarttyps": SBV64, "@startrefs": SBV64, "@defs": SBV64, "@depth": SBV64, "@alloc": SBV64, "@nread": SBV64,
+	"@refs": SBV64, "@declared": SBV64, "@tr": SStrm, "@opens": SBV64, "@clashes": SBV64, "@lastwriter": SBV64, "@startcls": SBV64, "@nvals": SBV64, "@selfregs": SBV64, "@calls": SBV64, "@dyntrue": SBV64, "@nrec": SBV64, "@lastreader": SBV64, "@dstartcls": SBV64, "@dstartrefs": SBV64, "@dstarttyps": SBV64, "@startrefs": SBV64, "@defs": SBV64, "@depth": SBV64, "@alloc": SBV64, "@nread": SBV64,
 }
 
 func (m *Machine) ghost(st *State, name string) Value {
@@ -99,6 +99,12 @@ func (m *Machine) ghost(st *State, name string) Value {
 		m.everr("unknown ghost %s", name)
 	}
 	v := m.syms.named("ghost0."+strings.TrimPrefix(name, "@"), s)
+	if s == SBV64 && name != "@pos" {
+		// ghost counters start in [0, 2^40]: they never overflow (A-COUNTERS)
+		if len(m.facts[v.S]) == 0 {
+			m.addFact(v.S, And(BVSge(v, BVLitI(0, 64)), BVSle(v, BVLitI(1<<40, 64))))
+		}
+	}
 	st.ghost[name] = v
 	// the initial value is shared with the old state (so that old(@x) denotes it)
 	if m.cur != nil && m.cur.old != nil && m.cur.old != st {
@@ -124,6 +130,11 @@ func (m *Machine) ev(env *Env, x *Expr) CV {
 			return v
 		}
 		if v, ok := env.vars[x.Name]; ok {
+			// captured variables of a closure are cells: their current (or old) content is meant
+			if p, isPtr := v.V.(*PtrV); isPtr && m.cur != nil && m.cur.freeVars[x.Name] && p.Obj != nil {
+				pt := p.Typ.Underlying().(*types.Pointer).Elem()
+				return CV{V: m.load(env.cur, p, pt), Signed: isSigned(pt), Typ: pt}
+			}
 			return v
 		}
 		if le, ok := env.lets[x.Name]; ok {
@@ -616,6 +627,30 @@ func (m *Machine) evCall(env *Env, x *Expr) CV {
 		}
 	}
 	switch name {
+	case "entry":
+		// the value a parameter had on entry (parameters are variables in Go)
+		need(1)
+		if args[0].Op != "ident" {
+			m.everr("entry(x): x must be a parameter")
+		}
+		if v, ok := m.cur.params[args[0].Name]; ok && !env.atCallSite {
+			t := m.cur.ptypes[args[0].Name]
+			return CV{V: v, Signed: t != nil && isSigned(t), Typ: t}
+		}
+		return m.ev(env, args[0])
+	case "now":
+		// the value of a (re-assigned) parameter or local at the return point
+		need(1)
+		if args[0].Op != "ident" {
+			m.everr("now(x): x must be a variable")
+		}
+		if v, ok := env.vars["now."+args[0].Name]; ok {
+			return v
+		}
+		if v, ok := env.vars[args[0].Name]; ok {
+			return v
+		}
+		m.everr("unknown identifier %s", args[0].Name)
 	case "old":
 		need(1)
 		if env.old == nil {
@@ -843,6 +878,11 @@ func (m *Machine) evCall(env *Env, x *Expr) CV {
 		}
 		if v, ok := env.cur.ghost["@map:"+ref.S]; ok {
 			return CV{V: v.(*mapContent).size, Signed: true}
+		}
+		if a.Typ != nil {
+			if _, isMap := a.Typ.Underlying().(*types.Map); isMap {
+				return CV{V: m.mapState(env.cur, ref, a.Typ).size, Signed: true}
+			}
 		}
 		return CV{V: app(SBV64, "map.size0", ref), Signed: true}
 	case "maphas", "mapget":
